@@ -488,6 +488,27 @@ func runC06(c *core.Ctx) {
 			}
 		}
 		c.Check(ok, "the consensus-side entry reports the highest sequence", "T20 WrapperDelegation", sq.Pos(), "Seq() returns BranchSeq.Seq", "the adapter reports another field (e.g. MinSeq) as the highest observed sequence")
+		// every Get hands out an entry of its own: a result that is storage owned by the receiver would be
+		// overwritten by the next Get (callers that read the whole clock first see one validator's entry everywhere)
+		ag := c.Fn("utils/adapters.VectorSeqToDagIndexSeq.Get")
+		nGet := 0
+		for _, rp := range ag.ReturnPoints() {
+			r, isRet := rp.Node().(*ast.ReturnStmt)
+			if !isRet || len(r.Results) != 1 {
+				continue
+			}
+			nGet++
+			e := resolveLocal(ag, r.Results[0])
+			root, pth := fieldPath(ag, e)
+			shared := len(pth) > 0 && varOf(ag, root) != nil && varOf(ag, root) == ag.Recv()
+			if tv, okT := ag.Info().Types[r.Results[0]]; okT {
+				if _, isPtr := tv.Type.Underlying().(*types.Pointer); !isPtr {
+					shared = false // a value copy
+				}
+			}
+			c.Check(!shared, "each Get returns its own entry", "ownership", r.Pos(), "the result is not storage owned by the receiver", "Get hands out a pointer into the adapter itself: the next Get overwrites what the previous caller still holds, so a kept entry reports another validator's sequence or fork flag")
+		}
+		c.ExpectAtLeast("returns of the adapter's Get", nGet, 1)
 		// the fork flag is the vector entry's own
 		okF := false
 		if t := c.P.LookupType("utils/adapters.BranchSeq"); t != nil {
